@@ -167,7 +167,9 @@ CHECK_DEADLOCK FALSE
 	// path-like values whose last element (with or without the age-plugin- prefix) is a valid name that IS on PATH
 	extra := []string{"besidepath", "pwn/besidepath", "./age-plugin-besidepath", "../age-plugin-besidepath", "/usr/local/bin/age-plugin-besidepath", "age-plugin-besidepath/", "a,b", "a:b", "a;b", "a=b", "a@b", "a*", "a&b", "a|b", "a'b", "a\"b", "a(b", "a)b", "a<b", "a>b", "a?b", "a[b", "a]b", "a^b", "a`b", "a{b", "a}b", "a$b", "a#b", "foo", "Foo", "FOO", "x.y", "X.Y", "../x", "x/../y", ".x", "..", "/pwn", "/../../tmp/pwn", "a/b", "\\pwn", "~/bin/x", "*a", "a b", "a\tb", "é", ""}
 	for i := range cases {
-		names[nameOf(&cases[i])] = true
+		if cases[i].Class == "plugin_canon" { // (the junk-in-front strings have no name of their own)
+			names[nameOf(&cases[i])] = true
+		}
 	}
 	for _, n := range extra {
 		names[n] = true
@@ -308,8 +310,19 @@ func cli(run *vk.Run, e *env, names map[string]bool, w *world.World) {
 		}
 		return list[i] < list[j]
 	})
-	if !run.Thorough() && len(list) > 60 {
-		list = list[:60]
+	if !run.Thorough() {
+		// the quick tier's cut keeps both kinds: up to 40 values that are not names and up to 25 valid names
+		var inv, val []string
+		for _, n := range list {
+			if validName(n) {
+				if len(val) < 25 {
+					val = append(val, n)
+				}
+			} else if len(inv) < 40 {
+				inv = append(inv, n)
+			}
+		}
+		list = append(inv, val...)
 	}
 	envv := []string{"PATH=relbin:" + e.first + ":" + e.second + ":/usr/bin:/bin", "TMPDIR=" + e.tmp}
 	for _, n := range list {
